@@ -6,6 +6,7 @@ import (
 	"context"
 	"fmt"
 	"math/rand"
+	"os"
 	"sort"
 	"time"
 
@@ -405,7 +406,7 @@ type ptx struct {
 }
 
 func selection(c *mon.Ctx) {
-	c.Cases("select", c.N(1500, 60000), func(k *mon.Case) {
+	c.Cases("select", c.N(20000, 400000), func(k *mon.Case) {
 		r := k.R
 		g, err := newRig(k, r, 10)
 		if err != nil {
@@ -465,7 +466,6 @@ func selection(c *mon.Ctx) {
 		// replay
 		heads := map[string]int{}
 		dropped := map[string]bool{}
-		total := 0
 		fail := func(key, what string, extra map[string]any) {
 			w := map[string]any{"senders": senders, "maxSize": maxSize, "selected": len(out)}
 			poolDesc := []string{}
@@ -486,9 +486,16 @@ func selection(c *mon.Ctx) {
 			}
 			k.Violation(key, what, w)
 		}
-		available := func() (best uint64, set []*ptx) {
+		// The code pops the highest-priority head; if it does not fit, selection ends (size is
+		// tested before verification); if it fails verification/execution its sender is
+		// dropped; otherwise it is selected. Heads of equal priority may pop in any order, so
+		// the replay searches over the possible pop orders.
+		var possible func(idx int, heads map[string]int, drop map[string]bool, total int) bool
+		possible = func(idx int, heads map[string]int, drop map[string]bool, total int) bool {
+			var best uint64
+			var set []*ptx
 			for s, l := range bySender {
-				if dropped[s] || heads[s] >= len(l) {
+				if drop[s] || heads[s] >= len(l) {
 					continue
 				}
 				p := l[heads[s]]
@@ -498,77 +505,72 @@ func selection(c *mon.Ctx) {
 					set = append(set, p)
 				}
 			}
+			if len(set) == 0 {
+				return idx == len(out)
+			}
+			for _, h := range set {
+				sdr := string(h.tx.SenderAddress())
+				switch {
+				case h.tx.Size()+total > maxSize:
+					if idx == len(out) {
+						return true
+					}
+				case !h.ok:
+					d2 := map[string]bool{sdr: true}
+					for a, b := range drop {
+						d2[a] = b
+					}
+					if possible(idx, heads, d2, total) {
+						return true
+					}
+				default:
+					if idx < len(out) && bytes.Equal(h.tx.ID, out[idx].ID) {
+						h2 := map[string]int{}
+						for a, b := range heads {
+							h2[a] = b
+						}
+						h2[sdr]++
+						if possible(idx+1, h2, drop, total+h.tx.Size()) {
+							return true
+						}
+					}
+				}
+			}
+			return false
+		}
+		if !possible(0, map[string]int{}, map[string]bool{}, 0) {
+			// classify by the conjunct of the statement that the output violates
+			pos := map[string]int{}
+			failed := map[string]bool{}
+			sum := 0
+			key, what := "select:not-in-descending-fee-priority", "the selected list cannot be produced by taking the senders' next transactions in descending fee priority"
+			for _, t := range out {
+				sdr := string(t.SenderAddress())
+				l := bySender[sdr]
+				sum += t.Size()
+				switch {
+				case failed[sdr]:
+					key, what = "select:sender-continued-after-failure", "a sender's later transaction was selected after one of its transactions failed verification/execution"
+				case pos[sdr] >= len(l) || !bytes.Equal(l[pos[sdr]].tx.ID, t.ID):
+					key, what = "select:nonce-order", "a transaction was selected before the sender's lower-nonce transaction"
+				case !l[pos[sdr]].ok:
+					key, what = "select:failed-transaction-selected", "a transaction failing verification/execution was selected"
+					failed[sdr] = true
+				case sum > maxSize:
+					key, what = "select:payload-above-limit", "selected transactions exceed the size limit"
+				}
+				pos[sdr]++
+			}
+			fail(key, what, nil)
 			return
 		}
-		// The code pops the highest-priority head; if it does not fit, selection ends (size is
-		// tested before verification); if it fails verification/execution its sender is
-		// dropped; otherwise it is selected. Ties may pop in any order.
-		idx := 0
-		for {
-			var set []*ptx
-			decided := false
-			for !decided {
-				_, set = available()
-				if len(set) == 0 {
-					break
-				}
-				if idx < len(out) {
-					for _, p := range set {
-						if bytes.Equal(p.tx.ID, out[idx].ID) && p.ok && p.tx.Size()+total <= maxSize {
-							decided = true
-						}
-					}
-					if decided {
-						break
-					}
-				} else {
-					for _, p := range set {
-						if p.tx.Size()+total > maxSize {
-							decided = true // a best head does not fit: ending here is legitimate
-						}
-					}
-					if decided {
-						break
-					}
-				}
-				changed := false
-				for _, p := range set {
-					if !p.ok && p.tx.Size()+total <= maxSize {
-						dropped[string(p.tx.SenderAddress())] = true
-						changed = true
-					}
-				}
-				if !changed {
-					break
-				}
+		for _, t := range out {
+			heads[string(t.SenderAddress())]++
+		}
+		for s, l := range bySender {
+			if heads[s] < len(l) && !l[heads[s]].ok {
+				dropped[s] = true
 			}
-			if idx == len(out) {
-				if len(set) != 0 && !decided {
-					fail("select:stopped-although-best-head-fits", "selection stopped although the highest-priority next transaction fits and passes", map[string]any{"remaining_best_priority": set[0].prio, "total": total})
-				}
-				break
-			}
-			t := out[idx]
-			s := string(t.SenderAddress())
-			if !decided {
-				l := bySender[s]
-				switch {
-				case dropped[s]:
-					fail("select:sender-continued-after-failure", "a sender's later transaction was selected after one of its transactions failed verification/execution", nil)
-				case heads[s] < len(l) && !bytes.Equal(l[heads[s]].tx.ID, t.ID):
-					fail("select:nonce-order", "a transaction was selected before the sender's lower-nonce transaction", nil)
-				case heads[s] < len(l) && !l[heads[s]].ok:
-					fail("select:failed-transaction-selected", "a transaction failing verification/execution was selected", nil)
-				case t.Size()+total > maxSize:
-					fail("select:payload-above-limit", "selected transactions exceed the size limit", map[string]any{"total": total + t.Size()})
-				default:
-					fail("select:lower-priority-head-chosen", "a lower-priority head was chosen while a higher-priority head of another sender was available", map[string]any{"chosen_priority": t.Fee / uint64(t.Size())})
-				}
-				return
-			}
-			total += t.Size()
-			heads[s]++
-			idx++
 		}
 		nd := 0
 		for range dropped {
@@ -670,8 +672,15 @@ func main() {
 		},
 		ChildTimeoutQuick: 10 * time.Minute, ChildTimeoutThorough: 60 * time.Minute,
 	}, func(c *mon.Ctx) {
-		selection(c)
-		directed(c)
-		live(c)
+		only := os.Getenv("VERIF_C15_ONLY") // development aid: restrict to one stream group
+		if only == "" || only == "select" {
+			selection(c)
+		}
+		if only == "" || only == "directed" {
+			directed(c)
+		}
+		if only == "" || only == "live" {
+			live(c)
+		}
 	})
 }
